@@ -7,7 +7,7 @@
    reported ranges are built from, are proved consistent (C08_token_positions_consistent), and so are the date, account and commodity
    ranges of the AST, which are token ranges (C08_ast_ranges_are_token_ranges). *)
 From HL Require Import Lib.Bytes Model.Ast Model.Lexer Model.Parser Model.References Model.Ranges Spec.RangeSpec Spec.FormatSpec Model.Formatter
-  Proofs.RangesProofs Proofs.LexerLines Proofs.LexerColumns Proofs.ParserLines Proofs.ParserErrors Proofs.ParserPositions.
+  Proofs.RangesProofs Proofs.LexerLines Proofs.LexerColumns Proofs.ParserLines Proofs.ParserErrors Proofs.ParserPositions Proofs.ReportedRanges.
 Open Scope Z_scope.
 
 Theorem C08_validator_range : forall lines r, range_ok lines r = true ->
@@ -115,6 +115,37 @@ Theorem C08_ast_ranges_are_token_ranges : forall text j errs, parse text = Some 
       (forall b, po_assert p = Some b -> com_in_text text (a_com (as_amt b))).
 Proof. exact parse_ranges_in_text. Qed.
 Print Assumptions C08_ast_ranges_are_token_ranges.
+
+(* ... and both ends of the range of every transaction, directive and include (what document symbols,
+   folds and links are built from) and of the declared name of every account / commodity directive
+   (references with declarations, rename, workspace symbols) are places of the text *)
+Theorem C08_entry_ranges_in_text : forall text j errs, parse text = Some (j, errs) ->
+  (forall tx, In tx (j_txs j) -> pos_in_text text (r_start (tx_rng tx)) /\ pos_in_text text (r_end (tx_rng tx))) /\
+  (forall i, In i (j_includes j) -> pos_in_text text (r_start (inc_rng i)) /\ pos_in_text text (r_end (inc_rng i))) /\
+  (forall d, In d (j_dirs j) ->
+     match d with
+     | DAccount _ nr _ _ _ r =>
+         (pos_in_text text (r_start nr) /\ pos_in_text text (r_end nr)) /\ (pos_in_text text (r_start r) /\ pos_in_text text (r_end r))
+     | DCommodity c _ _ _ r => com_in_text text c /\ (pos_in_text text (r_start r) /\ pos_in_text text (r_end r))
+     | DInclude _ r | DPrice _ _ _ r | DYear _ r | DDefault _ _ r => pos_in_text text (r_start r) /\ pos_in_text text (r_end r)
+     end).
+Proof. exact parse_entry_ranges_in_text. Qed.
+Print Assumptions C08_entry_ranges_in_text.
+
+(* ... and, one step further, what is REPORTED: every range of the document-symbol and document-link
+   answers is a pair of LSP positions (zero-based line and UTF-16 character) of places of the text *)
+Theorem C08_symbol_and_link_ranges_are_places : forall text j errs, parse text = Some (j, errs) ->
+  (forall r, In r (doc_symbols j) -> prange_places text r) /\ (forall r, In r (doc_links j) -> prange_places text r).
+Proof. exact symbols_and_links_are_places. Qed.
+Print Assumptions C08_symbol_and_link_ranges_are_places.
+
+(* the range a hover answer reports for an account or a date is, for EVERY byte string and every
+   cursor position, the range of ONE token of the text (minus one on lines and characters) *)
+Theorem C08_hover_account_and_date_ranges : forall text j errs pl pc k r, parse text = Some (j, errs) ->
+  hover_element j pl pc = Some (k, r) -> k = HAccount \/ k = HDate ->
+  exists rr, rng_in_text text rr /\ r = to_proto rr.
+Proof. exact hover_account_and_date_ranges. Qed.
+Print Assumptions C08_hover_account_and_date_ranges.
 
 (* every syntax-error diagnostic is reported at a place of the text *)
 Theorem C08_syntax_errors_in_text : forall text j errs, parse text = Some (j, errs) ->
